@@ -159,6 +159,9 @@ End ==
        \* C11: the stored status agrees with how the last run ended; every plugin released
        \cup Add(~(Ev.status \in {"Running", "Recovering"} /\ AllDown /\ st.startCalls > 0), "StatusAgrees",
                 <<Ev.status, "all plugins torn down">>)
+       \* ... and so does the STORED status (what a restarted server would find): the last durable status write
+       \cup Add(~(st.status \in {Running, Recovering} /\ AllDown /\ st.startCalls > 0), "StatusAgrees",
+                <<"stored status", st.status, "reported", Ev.status, "all plugins torn down">>)
        \cup Add(~(Ev.status \notin {"Running", "Recovering"}) \/ AllDown, "ReleasedAfterEnd", Ev.status)
        \* C10/C12 expectations declared by the scenario
        \cup (IF "expect-fatal" \in st.feats /\ ~st.restartCheck
